@@ -46,7 +46,7 @@ def data_corr(rng, mask, kind):
         if mask[t]:
             content.append(None)
             continue
-        if kind == 'positive':
+        if kind in ('positive', 'zeroat'):
             v = amp * np.exp(-m0 * t) * float(rng.uniform(0.9, 1.1)) + 0.05
         elif kind == 'cosh':
             v = amp * np.cosh(m0 * (t - T / 2)) * float(rng.uniform(0.995, 1.005))
@@ -57,13 +57,18 @@ def data_corr(rng, mask, kind):
         else:
             v = float(rng.uniform(0.2, 2.0)) * (1 if rng.random() < 0.6 else -1)
         content.append(mk(rng, float(v), rel=0.01))
+    if kind == 'zeroat':
+        # positive data with one timeslice centred at exactly zero (an antisymmetrised correlator at T/2): it still fluctuates
+        defined = [t for t in range(T) if content[t] is not None]
+        tz = defined[int(rng.integers(0, len(defined)))]
+        content[tz] = content[tz] - float(content[tz].value)
     return pe.Corr(content)
 
 
 def derived_cases(rng, m, ctx):
     cases = []
     T, mask = m['T'], m['mask']
-    for kind in ('positive', 'sign'):
+    for kind in ('positive', 'sign', 'zeroat'):
         a = data_corr(rng, mask, kind)
         pa = pcorr(a)
         for what, variant in VARIANTS:
